@@ -34,6 +34,7 @@ type txnCtx struct {
 	thread     int
 	abort      bool // the body will end in an error
 	ttlPending bool
+	ttlAcc     interface{ Set(time.Duration) } // txn.TTL() accessor obtained at the start of the current row operation (C17)
 }
 
 // runTxn executes one transaction program on the primary and mirrors it into the model.
@@ -462,13 +463,27 @@ func (x *txnCtx) checkFresh(r column.Row, off uint32) {
 
 // inRow performs the reads and writes of an op on the positioned row.
 func (x *txnCtx) inRow(r column.Row, off uint32, op *Op) {
+	x.ttlAcc = nil
+	for _, wr := range op.Writes {
+		if wr.TTL != 0 && wr.Via == 1 && x.w.ttl != nil {
+			x.ttlAcc = x.txn.TTL() // obtained before the reads below, during which the scheduler may advance the clock
+		}
+	}
 	x.checkRow(r, off, op.Yield)
 	if x.w.ttl != nil && x.w.viol == nil {
 		// the remaining time-to-live is exactly deadline minus (fake) now
 		if d, ok := x.w.model.Get(off, "expire"); ok && d.U != 0 {
 			got, has := r.TTL()
-			if want := time.Unix(0, int64(d.U)).Sub(time.Now()); !has || got != want {
+			want := time.Unix(0, int64(d.U)).Sub(time.Now())
+			if !has || got != want {
 				x.w.fail(violation("ttl/remaining", "row %d: Row.TTL()=%v,%v but the committed deadline is %v away", off, got, has, want))
+			}
+			acc := x.txn.TTL()
+			if got, has := acc.TTL(); !has || got != want {
+				x.w.fail(violation("ttl/remaining", "row %d: txn.TTL().TTL()=%v,%v but the committed deadline is %v away", off, got, has, want))
+			}
+			if at, has := acc.ExpiresAt(); !has || at.UnixNano() != int64(d.U) {
+				x.w.fail(violation("ttl/expires-at", "row %d: txn.TTL().ExpiresAt()=%v,%v but the committed deadline is %v", off, at, has, time.Unix(0, int64(d.U))))
 			}
 		}
 	}
@@ -534,11 +549,21 @@ func (x *txnCtx) writes(r column.Row, off uint32, op *Op) {
 			continue // see the gate in runTTLInBubble
 		case wr.TTL != 0:
 			x.noteTTLWrite()
-			until := r.SetTTL(time.Duration(wr.TTL))
+			// the deadline is predicted here, not taken from the library: now (the fake clock of
+			// the bubble does not move inside a step) plus the time-to-live
+			want := time.Now().Add(time.Duration(wr.TTL))
+			if wr.Via == 1 && x.ttlAcc != nil {
+				// through the accessor, which was obtained when the operation started: the clock may
+				// have been advanced since
+				x.ttlAcc.Set(time.Duration(wr.TTL))
+				w.stats.probe("ttl-set-through-accessor")
+			} else if until := r.SetTTL(time.Duration(wr.TTL)); w.ttl != nil && !until.Equal(want) {
+				w.fail(violation("ttl/deadline-returned", "row %d: SetTTL(%v) at +%v returned the deadline +%v", off, time.Duration(wr.TTL), time.Since(w.ttl.start), until.Sub(w.ttl.start)))
+			}
 			if x.deleted(off) {
 				continue
 			}
-			x.mt.add(MOp{Kind: mPut, Off: off, Col: "expire", Val: MVal{U: uint64(until.UnixNano())}})
+			x.mt.add(MOp{Kind: mPut, Off: off, Col: "expire", Val: MVal{U: uint64(want.UnixNano())}})
 			continue
 		case wr.Extend != 0:
 			// Extend on a row without a time-to-live is unspecified: only rows whose committed
